@@ -52,6 +52,17 @@ func ID() (id channel.ID) {
 	return id
 }
 
+// IDLike returns either ref itself or an arbitrary identifier. (An arbitrary
+// identifier alone also covers "equal to ref" symbolically, but a
+// counterexample that needs equality could not be replayed natively when ref
+// is a hash over key material that is random in a native run.)
+func IDLike(ref channel.ID) channel.ID {
+	if rt.NondetBool() {
+		return ref
+	}
+	return ID()
+}
+
 // Balances returns an a x n matrix of arbitrary amounts.
 func Balances(a, n int) channel.Balances {
 	out := make(channel.Balances, a)
